@@ -14,7 +14,8 @@ META = dict(
          "request they see with the k-th redirect of the chain (status from {301, 302, 303, 307}, a Location, a small body) and "
          "the request after the last redirect with 200. Location forms, relative to the URL just requested: absolute same origin, "
          "absolute other port, absolute other host, absolute without port (default port), absolute without path (other port), http->https (upgrade), https->http "
-         "(downgrade), relative 'x', '/x/y', '../x' - each with and without a query - '?q=1', and two forms whose query values carry percent-escaped "
+         "(downgrade), relative 'x', '/x/y', '../x' - each with and without a query; the relative forms' queries carry an unescaped URL "
+         "('x?return=https://h.example/y', '/x/y?next=http://h/x&k=v') or a fragment with '://' ('../x?k=v#see://frag') - '?q=1', and two forms whose query values carry percent-escaped "
          "reserved characters ('?next=%2Fhome%3Fa%3D1%26b%3D2' relative, '/esc?co=A%26B&sum=1%2B1&eq=x%3Dy' absolute). All chains of length 0..2 with "
          "all four status rotations under all schedules with <= 1 deviation (quick), chains of length 3 with one status rotation "
          "under the default schedule (quick); thorough: all chains <= 3 with four rotations and <= 1 deviation, chains <= 2 with "
@@ -27,7 +28,7 @@ META = dict(
          "Location leaves https for http no request is sent there (and no further request at all) and at most one response is "
          "delivered; no request ever reaches an http origin after an https one.",
     note="Origins are harness-played (they answer a complete request at once); the redirected method is not judged (the "
-         "statement does not define 303 semantics); only GET without a body is sent. Fragments, percent-encoded paths and non-ASCII "
+         "statement does not define 303 semantics); only GET without a body is sent. Percent-encoded paths and non-ASCII "
          "Locations are not generated. Connection loss, refused connections and TLS handshake "
          "faults are C25/C27's subject.",
 )
@@ -75,11 +76,13 @@ def forms(cur, n):
         ("noport", "%s://%s/noport%d" % (scheme, host, n)),
         ("nopath", "%s://%s:%d" % (scheme, host, oport)),
         ("rel", "x%d" % n),
-        ("rel+q", "x%d?k=v%d" % (n, n)),
+        # the "+q" variants of the relative forms carry an unescaped URL as query value / a '://' in the fragment
+        # (legal: ':' and '/' need no escaping there), so they look absolute to a sloppy test
+        ("rel+q", "x%d?return=https://h%d.example/y" % (n, n)),
         ("abspath", "/x%d/y" % n),
-        ("abspath+q", "/x%d/y?k=v%d" % (n, n)),
+        ("abspath+q", "/x%d/y?next=http://h/x%d&k=v%d" % (n, n, n)),
         ("dotdot", "../x%d" % n),
-        ("dotdot+q", "../x%d?k=v%d" % (n, n)),
+        ("dotdot+q", "../x%d?k=v%d#see://frag%d" % (n, n, n)),
         ("query", "?q=%d" % n),
         # percent-escaped reserved characters inside query values (an escaped return URL, '&', '+', '=')
         ("escrel", "?next=%%2Fhome%%3Fa%%3D%d%%26b%%3D2" % n),
